@@ -35,6 +35,12 @@ var Epoch = time.Date(2020, 1, 1, 0, 0, 0, 0, time.UTC)
 
 func init() {
 	golog.SetOutputs(io.Discard, io.Discard)
+	if f := os.Getenv("VERIF_ZENODB_LOG"); f != "" {
+		// debugging aid: zenodb's error log to a file
+		if w, err := os.OpenFile(f, os.O_CREATE|os.O_APPEND|os.O_WRONLY, 0644); err == nil {
+			golog.SetOutputs(w, io.Discard)
+		}
+	}
 	zenodb.VerifInitClockHook = func(db *zenodb.DB) {
 		initMx.Lock()
 		t := initClock
